@@ -531,3 +531,44 @@ def s5(proj, rep, modules=None):
                     break
     rep.count('S5.sites', n)
     return n
+
+
+# ------------------------------------------------------------------------------------------------ S7
+RULES['S7'] = ('S7: the generator of a seed-accepting function is built ONCE per call: `get_numpy_rng(seed)` / `get_random_rng(seed)` / `default_rng(seed)` / '
+               '`Random(seed)` on the seed parameter never sits inside a loop or a comprehension. Re-creating it per draw gives every draw the same '
+               'first random words for an integer seed: the draws are fully correlated and most of the sample space is unreachable.')
+
+
+def s7(proj, rep, modules=None):
+    rep.rule('S7', RULES['S7'])
+    n = 0
+    makers = {'get_numpy_rng', 'get_random_rng', 'default_rng', 'Random', 'RandomState'}
+    for fi in proj.iter_functions(modules):
+        sp = set(seed_params(fi))
+        if not sp:
+            continue
+        m = fi.module
+        for c in ast.walk(fi.node):
+            if not (isinstance(c, ast.Call) and ast.unparse(c.func).split('.')[-1] in makers and c.args and isinstance(c.args[0], ast.Name) and c.args[0].id in sp):
+                continue
+            n += 1
+            cur = c
+            inside = None
+            while hasattr(cur, '_parent') and cur is not fi.node:
+                cur = cur._parent
+                if isinstance(cur, (ast.For, ast.While, ast.ListComp, ast.GeneratorExp, ast.SetComp, ast.DictComp)):
+                    # the iterable of a comprehension / for is evaluated once: only the body / element counts
+                    it = cur.iter if isinstance(cur, (ast.For,)) else None
+                    if it is not None and any(x is c for x in ast.walk(it)):
+                        continue
+                    if not isinstance(cur, (ast.For, ast.While)) and any(any(x is c for x in ast.walk(g.iter)) for g in cur.generators[:1]):
+                        continue
+                    inside = cur
+                    break
+            if inside is not None:
+                rep.violation('S7', fi.qual, f'`{ast.unparse(c)}` is evaluated inside `{ast.unparse(inside)[:60]}`: a new generator is seeded for every draw, so with an integer '
+                              f'seed all draws repeat the same random words (correlated digits; most outcomes unreachable)', m, c)
+            else:
+                rep.ok('S7', fi.qual, f'`{ast.unparse(c)}` built once per call', m, c)
+    rep.count('S7.generator_constructions', n)
+    return n
